@@ -464,29 +464,40 @@ cmd_hist (std::vector <std::string> const &w)
     {
       std::string iq = unhex (w[i]);
       std::string ierr;
+      // "*QUERY": every stack that QUERY yields is an input; values that they share (a
+      // Dwarf and the caches that hang off it) are then shared between the executions.
+      bool all = ! iq.empty () && iq[0] == '*';
+      if (all)
+	iq = iq.substr (1);
       flags fi;
       zw_query *q0 = do_parse (iq, fi, ierr, nullptr);
       zw_error *e = nullptr;
       zw_stack *empty = zw_stack_init (&e);
-      zw_stack *in = nullptr;
+      size_t before = inputs.size ();
       if (q0 != nullptr)
 	{
 	  zw_result *r = zw_query_execute (q0, empty, &e);
 	  if (r != nullptr)
 	    {
-	      zw_result_next (r, &in, &e);
+	      zw_stack *in = nullptr;
+	      while (zw_result_next (r, &in, &e) && in != nullptr)
+		{
+		  inputs.push_back (in);
+		  in = nullptr;
+		  if (! all)
+		    break;
+		}
 	      zw_result_destroy (r);
 	    }
 	  zw_query_destroy (q0);
 	}
       zw_stack_destroy (empty);
-      if (in == nullptr)
+      if (inputs.size () == before)
 	{
 	  os << "\"status\":\"input_error\",\"err\":" << jstr (ierr) << "}";
 	  g_rec = os.str ();
 	  return;
 	}
-      inputs.push_back (in);
     }
 
   // Snapshot of the inputs to verify that they are not modified.
